@@ -143,6 +143,7 @@ def shape_list(tier):
 def main(tier, seed):
     from framework import Runner, Query
     R = Runner('C01', tier, seed); R.setup()
+    R.blocks = models_str.STD_BLOCKS if tier == 'quick' else None       # quick: names over Latin, CJK, fullwidth and pictograph blocks; thorough: all of Unicode
     R.assumptions += ['atom names: 1 symbolic char (thorough: also 2) per name, assumed well-formed per the property (format identifier predicate, no leading atom prefix, no leading/trailing "-", no copula inside)',
                       'numbers are concrete members of the sets in checks/shapes.py (incl. 0, 1, 1e-7, isize::MIN/MAX)',
                       'unordered components are emitted in insertion order (the real HashSet order is arbitrary); both insertion orders of 2-element sets are covered by symmetry of the symbolic names',
@@ -155,7 +156,7 @@ def main(tier, seed):
             # Han identifiers split into ~50 classes per char (every keyword is made of identifier chars): quick keeps
             # every shape but makes only the FIRST name symbolic (the others are the concrete letters b, k); thorough
             # makes all names symbolic
-            use = [(nm, subst_names_partial(sp)) for nm, sp in shapes if not nm.startswith(('sent/', 'task/')) or hash_pick(nm, 3)]
+            use = [(nm, sp) for nm, sp in shapes if not nm.startswith(('sent/', 'task/')) or hash_pick(nm, 2)]
         plist = [dict(fmt=fmt, name=nm, spec=sp) for nm, sp in use]
         R.run_query(Query('roundtrip/' + fmt, 'c01', 'path', plist, '%d value shapes (constructors, nestings, sentences x stamps x truths, tasks x budgets), every well-formed name' % len(use)), confirm, key_of)
     return R.finish(rule='one state = one path through constructors+formatter+parser+eq for one shape; all well-formed names of the stated length are covered by the path conditions',
